@@ -12,46 +12,47 @@ import (
 
 // Profile steers the distribution of one campaign.
 type Profile struct {
-	Name              string
-	GenericPct        int // % of interfaces that are generic
-	MinDeps           int
-	MaxDeps           int
-	StdPct            int  // % chance that a named-type draw picks a std package
-	Conflict          bool // bias dependency paths towards colliding names
-	AdvNames          bool // adversarial parameter name pools
-	AdvNamesPct       int  // % of worlds that use the adversarial pools although AdvNames is off
-	MaxIfaces         int
-	MaxMethods        int
-	MaxParams         int
-	MaxResults        int
-	MaxDepth          int
-	EmbedPct          int
-	AliasPct          int  // % chance a source import gets an alias
-	DestOther         int  // % other-package destination
-	DestTest          int  // % <src>_test destination
-	DestSame          int  // % explicit -pkg <src name>
-	OutFilePct        int  // % of cases using -out instead of stdout
-	ExecSafe          bool // harness X: shapes the reflective driver can build values for
-	InPlaceOnly       bool
-	FmtDefault        bool   // only the default formatter
-	MultiArgPct       int    // % of cases with >1 interface argument
-	UnnamedPct        int    // % of signatures with unnamed parameters
-	GopathPct         int    // % of worlds in GOPATH+vendor layout
-	ModPath           string // module-relative import path prefix of the world (default example.com/w, own go.mod)
-	GenericAliasBoost int    // additional % of instantiated-generic interfaces declared as generic alias
-	TwinPct           int    // additional % of worlds with a build-constrained twin interface
-	HugePct           int    // % of interfaces with several hundred methods
-	BlankTParamBoost  int    // additional % of type parameters that are blank
-	ForcedGroupBoost  int    // additional % of conflict worlds with a forced group of sanitise-equal same-named packages
-	DiffAliasPct      int    // % of worlds with an extra source file importing used packages under other aliases
-	MockLikeParamPct  int    // chance (per argument) of a mock type named like a parameter of the interface
-	SameAliasPct      int    // % of aliased imports that reuse an alias another file gave to a DIFFERENT package
-	LiteralAliasPct   int    // % of non-generic interfaces declared as alias of an interface literal
-	NoDotBlank        bool   // no dot / blank imports in the source files
-	UniqueAliases     bool   // never use one alias for two different paths (known finding F-K, harness F)
-	ShadowPct         int    // % of signatures in which earlier parameters are named like the packages a later parameter type mentions
-	Evolve            bool   // also render a second version of the source (first requested literal interface gains a method)
-	MultiRefPct       int    // % bias towards dependency interfaces whose one method type mentions several same-named packages
+	Name                string
+	GenericPct          int // % of interfaces that are generic
+	MinDeps             int
+	MaxDeps             int
+	StdPct              int  // % chance that a named-type draw picks a std package
+	Conflict            bool // bias dependency paths towards colliding names
+	AdvNames            bool // adversarial parameter name pools
+	AdvNamesPct         int  // % of worlds that use the adversarial pools although AdvNames is off
+	MaxIfaces           int
+	MaxMethods          int
+	MaxParams           int
+	MaxResults          int
+	MaxDepth            int
+	EmbedPct            int
+	AliasPct            int  // % chance a source import gets an alias
+	DestOther           int  // % other-package destination
+	DestTest            int  // % <src>_test destination
+	DestSame            int  // % explicit -pkg <src name>
+	OutFilePct          int  // % of cases using -out instead of stdout
+	ExecSafe            bool // harness X: shapes the reflective driver can build values for
+	InPlaceOnly         bool
+	FmtDefault          bool   // only the default formatter
+	MultiArgPct         int    // % of cases with >1 interface argument
+	UnnamedPct          int    // % of signatures with unnamed parameters
+	GopathPct           int    // % of worlds in GOPATH+vendor layout
+	ModPath             string // module-relative import path prefix of the world (default example.com/w, own go.mod)
+	GenericAliasBoost   int    // additional % of instantiated-generic interfaces declared as generic alias
+	TwinPct             int    // additional % of worlds with a build-constrained twin interface
+	HugePct             int    // % of interfaces with several hundred methods
+	OtherNameAliasBoost int    // additional % of source aliases that are the name of another package in play
+	BlankTParamBoost    int    // additional % of type parameters that are blank
+	ForcedGroupBoost    int    // additional % of conflict worlds with a forced group of sanitise-equal same-named packages
+	DiffAliasPct        int    // % of worlds with an extra source file importing used packages under other aliases
+	MockLikeParamPct    int    // chance (per argument) of a mock type named like a parameter of the interface
+	SameAliasPct        int    // % of aliased imports that reuse an alias another file gave to a DIFFERENT package
+	LiteralAliasPct     int    // % of non-generic interfaces declared as alias of an interface literal
+	NoDotBlank          bool   // no dot / blank imports in the source files
+	UniqueAliases       bool   // never use one alias for two different paths (known finding F-K, harness F)
+	ShadowPct           int    // % of signatures in which earlier parameters are named like the packages a later parameter type mentions
+	Evolve              bool   // also render a second version of the source (first requested literal interface gains a method)
+	MultiRefPct         int    // % bias towards dependency interfaces whose one method type mentions several same-named packages
 }
 
 func DefaultProfile() Profile {
@@ -1984,7 +1985,11 @@ func (g *G) assignFiles() {
 			if a, ok := globalAlias[p]; ok && g.Chance(80) {
 				alias = a
 			} else if g.Chance(g.P.AliasPct) {
-				switch g.Int(0, 5) {
+				kind := g.Int(0, 5)
+				if g.Chance(g.P.OtherNameAliasBoost) {
+					kind = 4
+				}
+				switch kind {
 				case 0, 1, 2:
 					alias = g.Pick(aliasPool)
 				case 3:
@@ -1993,6 +1998,23 @@ func (g *G) assignFiles() {
 					// the name of another package in play
 					o := StdPkgs[g.Int(0, len(StdPkgs)-1)]
 					alias = o.Name
+					// preferably a package another file of the source package imports under its plain name (this
+					// file cannot import it as well then): `json "x/fastjson"` here, "encoding/json" there
+					var inOther []*Pkg
+					for _, f2 := range g.files {
+						if f2 == f {
+							continue
+						}
+						for _, q := range f2.order {
+							if f2.Imports[q] == "" && q.Name != p.Name && !seen[q] && strings.Contains(q.Path, "/") {
+								inOther = append(inOther, q)
+							}
+						}
+					}
+					if len(inOther) > 0 && g.Chance(75) {
+						alias = inOther[g.Int(0, len(inOther)-1)].Name
+						g.label("alias:name-of-package-in-other-file")
+					}
 					g.label("alias:other-pkg-name")
 				case 5:
 					alias = UpperFirst(p.Name)
